@@ -88,7 +88,7 @@ func genC43Counts(t *rapid.T, label string) []uint64 {
 func genC43Offset(t *rapid.T, label string) int32 {
 	switch rapid.IntRange(0, 5).Draw(t, label+"c") {
 	case 0:
-		return rapid.Int32Range(-(1 << 28), 1<<28).Draw(t, label+"big")
+		return rapid.Int32Range(-(1<<28), 1<<28).Draw(t, label+"big")
 	case 1:
 		return rapid.Int32Range(-5000, 5000).Draw(t, label+"mid")
 	case 2:
